@@ -32,13 +32,15 @@ from pbt.ref import c11_boolean as ref
 
 PROPERTY_ID = "C11"
 LEVEL = "exploration"
-RULE = ("Hypothesis-generated call histories (quick <= 15, thorough <= 40 calls) on LogicFormula(**options) with "
+RULE = ("Hypothesis-generated call histories (all atoms added first, then <= 15 calls in 'histories', <= 40 in "
+        "'long_histories') on LogicFormula(**options) with "
         "options from {auto_compact, keep_order, keep_duplicates, keep_all, avoid_name_clash} x max_arity {0,2,3} x "
         "propagate_weights {none, SemiringProbability, SemiringLogProbability}; 2-4 atoms with probabilities from "
         "{None, False, True, 0.0, 1.0, 0.3, Constant(0.0), Constant(1.0), Constant(0.3)}, optional AD group, int or "
         "str identifier, optional name; calls add_atom / add_and / add_or(readonly|mutable|placeholder, compact=) / "
         "add_disjunct / negate / add_not / add_name whose arguments are earlier returned keys (index modulo the "
-        "number of keys, incl. TRUE, FALSE and negations). Mutable disjunctions may be closed into positive cycles; "
+        "number of keys, incl. TRUE, FALSE and negations; a negative index addresses the k-th most recent mutable "
+        "disjunction; one generator alternative emits the pattern mutable-or / compound on it / add_disjunct). Mutable disjunctions may be closed into positive cycles; "
         "a disjunct that would close a cycle through a negation (decided on the model) is skipped. Oracle after "
         "every call: every key returned so far denotes, in the real node table evaluated by the reference "
         "evaluator, the truth table the naive model gives it (least fixpoint on cycles); add_disjunct must return "
@@ -120,7 +122,6 @@ class _Machine(object):
         self.steps = 0
         self.last_op = None
         self.f = None
-        self.terms = None
         if real:
             from problog.formula import LogicFormula
             from problog.logic import Term, Constant
@@ -587,7 +588,6 @@ def _model_machine(prefix):
 
 def enumerate_prefixes(tier):
     depth = 4 if tier == "thorough" else 3
-    plen = 2
     for op1 in _alphabet(_model_machine([])):
         m1 = _model_machine([op1])
         for op2 in _alphabet(m1):
@@ -597,7 +597,7 @@ def enumerate_prefixes(tier):
 def check_exhaustive(case):
     prefix = case["prefix"]
     depth = case["depth"]
-    stats = {"sequences": 0, "nontrivial_sequences": 0, "crosschecks": 0, "skipped_calls": 0}
+    stats = {"sequences": 0, "nontrivial_sequences": 0, "crosschecks": 0}
     feats = set()
     ret_failure = [None]
 
@@ -662,6 +662,7 @@ SUBCHECKS = [
                         "add_or(args, readonly=False), add_or((), placeholder=True), add_disjunct(m, l)} where args is "
                         "a single literal or an unordered pair of distinct literals from the pool {TRUE, FALSE, a, "
                         "-a, b, +r, -r for every earlier result r}, m any mutable disjunction created so far and l any "
-                        "pool literal that does not close a cycle through a negation; one case = one 2-call prefix, "
+                        "pool literal (a call that would close a cycle through a negation, or whose target was "
+                        "returned as FALSE, is a no-op of the sequence); one case = one 2-call prefix, "
                         "the check walks all its completions"),
 ]
